@@ -100,7 +100,14 @@ type Stats struct {
 	Threads     int              `json:"threads"`
 	Sample      []string         `json:"sample,omitempty"`
 	WallS       float64          `json:"wall_s"`
+	// BonusBound is the highest bound (sched) or depth (seq) attempted beyond the required one on the bonus
+	// time budget; BonusTimedOut says that this attempt was cut short (the required bound is unaffected).
+	BonusBound    int  `json:"bonus_bound_attempted,omitempty"`
+	BonusTimedOut bool `json:"bonus_timed_out,omitempty"`
 }
+
+// BonusBudget is the time a worker may spend beyond the required bound or depth (set per tier by the worker).
+var BonusBudget time.Duration
 
 // knownSigs holds the signatures listed as status=known in known_findings.json
 // (path in $VERIF_KNOWN). A violation with such a signature is recorded once
@@ -330,11 +337,36 @@ func Explore(sc *Scenario, maxBound, shard, nshards int, budget time.Duration, n
 		}
 		e.st.BoundDone = b
 	}
+	e.st.Exhaustive = e.st.BoundDone == maxBound
+	// bonus: when the required bound has been completed with time to spare, the next bounds are explored on a
+	// separate, short time budget. A bound completed there raises bound_completed; one that is not leaves
+	// everything as it was (the required bound stays completely explored). A violation found there counts.
+	if e.st.Exhaustive && e.viol == nil && e.infraErr == "" && BonusBudget > 0 && sc.FreeBound == 0 {
+		bd := time.Now().Add(BonusBudget)
+		if !e.deadline.IsZero() && e.deadline.Before(bd) {
+			bd = e.deadline
+		}
+		e.deadline = bd
+		for b := maxBound + 1; b <= maxBound+2; b++ {
+			e.bound = b
+			e.l2 = 0
+			e.st.BonusBound = b
+			e.explore(nil, 0)
+			if e.viol != nil || e.infraErr != "" {
+				break
+			}
+			if e.st.TimedOut {
+				e.st.TimedOut = false
+				e.st.BonusTimedOut = true
+				break
+			}
+			e.st.BoundDone = b
+		}
+	}
 	e.st.States = int64(len(e.visited))
 	if e.st.States == 0 {
 		e.st.States = e.st.Executions
 	}
-	e.st.Exhaustive = e.st.BoundDone == maxBound
 	e.st.FreeBound = sc.FreeBound
 	e.st.WallS = time.Since(start).Seconds()
 	var kn []*Violation
